@@ -77,6 +77,10 @@ def translated():
     res.append(("src/collections/vec.rs", "move_tail", "impl<'a, 'bump, T> Drain<'a, 'bump, T> {", "drain_move_tail", 0))
     res.append(("src/collections/vec.rs", "extend_from_slices_copy", "", "vec_extend_from_slices_copy", 0))
     res.append(("src/collections/vec.rs", "drop", "Drop for Splice<'a, 'bump, I>", "splice_drop_body", 0))
+    import rs2lean_strfwd
+    for name in rs2lean_strfwd.FUNCS:
+        if name != "len":
+            res.append(("src/collections/string.rs", name, rs2lean_strfwd.IMPL, "string_" + name, 0))
     for name, anchor, lean, generic, params, ret in rs2lean_typed.FUNCS:
         res.append(("src/lib.rs", name, anchor, lean, 0))
     return res
